@@ -508,15 +508,15 @@ IOV_OUTSIDE = ["operation kinds and slice lengths are concrete per skeleton (sym
                "uninitialised-memory reads (Kani's -Z uninit-checks crashes); allocation failure"]
 IOV_ASSUME = ["hook H2: 4-byte arena chunks (constant sequence), copy thresholds SMALL_COPY=1 / MAX_OPPORTUNISTIC_COPY=3 (cfg woodpile_verif_arena)"]
 
-IOV_NOT_DECIDED = ("skeletons that did NOT finish within 20 GB / 40 min and are therefore not part of any claim: k2 (merge + regrow + advance_slices), k4 (four placeholders, out-of-order fills), "
+IOV_NOT_DECIDED = ("ConsumingIovec::advance_slices is decided only as an arithmetic kernel over a stubbed stable prefix (Engine X, job advance_slices_kernel); " "skeletons that did NOT finish within 20 GB / 40 min and are therefore not part of any claim: k2 (merge + regrow + advance_slices), k4 (four placeholders, out-of-order fills), "
                    "k5/k6/k7 (longer variants), k8b/k8c (advance_slices next to a pending placeholder), k9 (Read::read / extend / pop_front), k11 (clone + take_arena, symbolic drop order); "
                    "in particular ConsumingIovec::advance_slices / Read::read are only exercised through the HCOBS drain harnesses")
 
 reg(Prop("C03", "OwningIovec FIFO pipe",
-         quick=[iov_job("k3_anchored_push_flush"), iov_job("k5q_clear_resets_accounting"), iov_job("k8q_consume_clamped_to_stable_prefix"), iov_job("k7q_clone_survives_drain_and_refill")],
+         quick=[iov_job("k3_anchored_push_flush"), iov_job("k5q_clear_resets_accounting"), iov_job("k8q_consume_clamped_to_stable_prefix"), iov_job("k7q_clone_survives_drain_and_refill"), codecx.AdvanceSlices("quick", pid="C03")],
          thorough=[iov_job(n, 3000, 24) for n in ("k1_patch_merge_consume", "k3_anchored_push_flush", "k5q_clear_resets_accounting",
-                                                    "k8q_consume_clamped_to_stable_prefix", "k8_overasking_consumers_with_pending", "k7q_clone_survives_drain_and_refill")],
-         bounds_quick="4 skeletons of 3-5 operations (anchored push + flush + consume, consume + clear + reuse, over-asking consume with a pending placeholder, clone/drain/refill); after the operations the whole read side is compared with a shadow buffer at a symbolic position, total_size/len/return values checked exactly",
+                                                    "k8q_consume_clamped_to_stable_prefix", "k8_overasking_consumers_with_pending", "k7q_clone_survives_drain_and_refill")] + [codecx.AdvanceSlices("thorough", pid="C03")],
+         bounds_quick="Engine X: advance_slices' byte arithmetic (min(count, stable bytes) for every 64-bit count over stubbed stable prefixes of <= 3 slices). Kani: 4 skeletons of 3-5 operations (anchored push + flush + consume, consume + clear + reuse, over-asking consume with a pending placeholder, clone/drain/refill); after the operations the whole read side is compared with a shadow buffer at a symbolic position, total_size/len/return values checked exactly",
          bounds_thorough="6 skeletons incl. placeholder + merging copy + two consumes, and the two-byte-placeholder over-asking skeleton",
          outside=IOV_OUTSIDE + [IOV_NOT_DECIDED], assumptions=IOV_ASSUME))
 reg(Prop("C04", "pending backpatches invisible",
@@ -622,12 +622,12 @@ reg(p06)
 
 p09 = Prop("C09", "incremental drain: bounded lag for the Encoder, none for the Decoder",
            quick=[codecx.EncoderVsReference("quick"), codecx.DecoderVsReference("quick"), codecx.ApiProduction("quick", pid="C09", name="c09::public_api_production_limits[mirx]"),
-                  iov_job("k8q_consume_clamped_to_stable_prefix")],
-           thorough=[codecx.EncoderVsReference("thorough"), codecx.DecoderVsReference("thorough"), codecx.ApiProduction("thorough", pid="C09", name="c09::public_api_production_limits[mirx]"),
+                  iov_job("k8q_consume_clamped_to_stable_prefix"), codecx.AdvanceSlices("quick", pid="C09")],
+           thorough=[codecx.EncoderVsReference("thorough"), codecx.DecoderVsReference("thorough"), codecx.ApiProduction("thorough", pid="C09", name="c09::public_api_production_limits[mirx]"), codecx.AdvanceSlices("thorough", pid="C09"),
                      iov_job("k8q_consume_clamped_to_stable_prefix", 3000, 24), iov_job("k8_overasking_consumers_with_pending", 3000, 24)],
            bounds_quick="on every feasible encoder path of Engine X (lengths <= 7, all cuts; production limits with inputs longer than 252+64008): at most one placeholder pending at any time and at most max_chunk+2 bytes appended behind it (so everything older is consumable), every placeholder is backfilled by finish; decoder paths register no placeholder at all; Kani: ConsumingIovec::consume never crosses the earliest pending placeholder even when over-asked",
            bounds_thorough="lengths <= 9; two consume skeletons",
-           outside=X_OUTSIDE + ["the drained bytes themselves: that what a consumer takes out of OwningIovec is a prefix of the final flatten() is C03/C04 (consume decided; ConsumingIovec::advance_slices and Read::read did NOT finish in Kani and are not decided), so a defect confined to advance_slices is not detected here",
+           outside=X_OUTSIDE + ["the drained bytes themselves: that what a consumer takes out of OwningIovec is a prefix of the final flatten() is C03/C04. ConsumingIovec::consume is decided there; for ConsumingIovec::advance_slices only its arithmetic is decided (Engine X on its MIR, with OwningIovec::stable_prefix and GlobalDeque::consume_by_bytes stubbed: the byte count dropped is min(count, stable bytes) for every 64-bit count) - stable_prefix's own slice selection next to a pending placeholder, consume_by_bytes and Read::read did NOT finish in Kani; a change to advance_slices that reads other state (e.g. the placeholder table) makes this job INCONCLUSIVE (exit 2), not a detection",
                                 "arena-chunk granularity of the lag (one slice may stay pinned behind a placeholder that shares it)"],
            assumptions=X_ASSUME + IOV_ASSUME, trusted=X_TRUST)
 p09.technique = p07.technique
